@@ -46,6 +46,10 @@ exactly `Spec.TieFreeFrom` read on exact means.
   (no relative rounding bound, see `Props/C02Rounding.lean`); single / complete need no rounding analysis
   (their heights are input entries: `Props/C06All.lean` over `OrderLaws`).
 * That IEEE-754 arithmetic satisfies `Round.Model` (hypothesis; sampled on every run by `kodama-laws`).
+
+Non-vacuity (`C06Ex`): the input `d01 = 1, d02 = 9, d12 = 4` has the margin along the explicit run
+`[(0,1,size 2), (2,3,size 3)]` for `u = 1/1000`, and `C06_average_rounded_unique` predicts from it the labels and
+sizes of what `nnchain_with` returns on the round-down toy type `downNum` (every operation rounded).
 -/
 import Kodama.Props.C03Rounding
 import Kodama.Lemmas.LabelAgree
@@ -131,7 +135,7 @@ theorem C06_average_rounded_labels_unique {D : Nat → Nat → K} {u : K} {n : N
 
 /-- `sz` of a label below `n + i` when the sizes of the first `i` steps agree. -/
 theorem sz_of_sizes {n i : Nat} {L L' : List (Step α)}
-    (h : ∀ j, j < i → (L[j]?).map (·.size) = (L'[j]?).map (·.size)) {l : Nat} (hl : l < n + i) :
+    (h : ∀ j, j < i → (L[j]?).map (fun s : Step α => s.size) = (L'[j]?).map (fun s : Step α => s.size)) {l : Nat} (hl : l < n + i) :
     sz n L l = sz n L' l := by
   unfold sz
   by_cases c : l < n
@@ -145,7 +149,7 @@ theorem sz_of_sizes {n i : Nat} {L L' : List (Step α)}
 /-- **Sizes are unique once the labels are.** -/
 theorem C06_average_rounded_sizes_unique {n : Nat} {s₁ s₂ : List (Step α)}
     (wf₁ : WellFormed n s₁) (wf₂ : WellFormed n s₂) (hlab : ∀ i, LabAgree i s₁ s₂) :
-    ∀ i j, j < i → (s₁[j]?).map (·.size) = (s₂[j]?).map (·.size) := by
+    ∀ i j : Nat, j < i → (s₁[j]?).map (fun s : Step α => s.size) = (s₂[j]?).map (fun s : Step α => s.size) := by
   intro i
   induction i with
   | zero => intro j hj; omega
@@ -173,7 +177,8 @@ well-formed run that is greedy up to rounding have the same labels and sizes at 
 theorem C06_average_rounded_unique {D : Nat → Nat → K} {u : K} {n : Nat}
     {s₁ s₂ : List (Step α)} (wf₁ : WellFormed n s₁) (wf₂ : WellFormed n s₂)
     (m₁ : AvgMarginAlong D u n s₁) (g₂ : AvgGreedyUpTo D u n s₂) :
-    ∀ i, (s₁[i]?).map (fun s => (s.c1, s.c2, s.size)) = (s₂[i]?).map (fun s => (s.c1, s.c2, s.size)) := by
+    ∀ i : Nat, (s₁[i]?).map (fun s : Step α => (s.c1, s.c2, s.size)) =
+      (s₂[i]?).map (fun s : Step α => (s.c1, s.c2, s.size)) := by
   intro i
   have hl := C06_average_rounded_labels_unique wf₁ wf₂ m₁ g₂
   have hs := C06_average_rounded_sizes_unique wf₁ wf₂ hl (i + 1) i (Nat.lt_succ_self i)
@@ -207,7 +212,243 @@ well-formed run that merges an EXACT minimiser of the mean at every step. -/
 theorem C06_average_rounded_reference {D : Nat → Nat → K} {u : K} {n : Nat}
     {s ref : List (Step α)} (hu0 : 0 ≤ u) (hu1 : u ≤ 1) (wf : WellFormed n s) (wfr : WellFormed n ref)
     (m : AvgMarginAlong D u n s) (g : AvgGreedyUpTo D 0 n ref) :
-    ∀ i, (s[i]?).map (fun s => (s.c1, s.c2, s.size)) = (ref[i]?).map (fun s => (s.c1, s.c2, s.size)) :=
+    ∀ i : Nat, (s[i]?).map (fun s : Step α => (s.c1, s.c2, s.size)) =
+      (ref[i]?).map (fun s : Step α => (s.c1, s.c2, s.size)) :=
   C06_average_rounded_unique wf wfr m (avgGreedyUpTo_mono hu0 hu1 g)
+
+/-! ## Heights -/
+
+/-- What the C02 rounding theorems say about the heights of a returned list: each is within
+`4·(size−2)` rounding factors of the exact mean over the cross pairs of the two merged clusters. -/
+def AvgHeightsNear (D : Nat → Nat → K) (u : K) (n : Nat) (val : α → K) (steps : List (Step α)) : Prop :=
+  ∀ (i : Nat) (s : Step α), steps[i]? = some s →
+    Near u (4 * (s.size - 2))
+      (avg D (Spec.leaves n steps steps.length s.c1).toFinset
+        (Spec.leaves n steps steps.length s.c2).toFinset) (val s.d)
+
+/-- **Heights agree up to rounding once labels and sizes do.** -/
+theorem C06_average_rounded_heights {D : Nat → Nat → K} {u : K} {n : Nat} {val : α → K}
+    {s₁ s₂ : List (Step α)} (hu : u < 1) (wf₁ : WellFormed n s₁) (wf₂ : WellFormed n s₂)
+    (hlab : ∀ i, LabAgree i s₁ s₂)
+    (h₁ : AvgHeightsNear D u n val s₁) (h₂ : AvgHeightsNear D u n val s₂) :
+    ∀ (i : Nat) (a b : Step α), s₁[i]? = some a → s₂[i]? = some b →
+      a.c1 = b.c1 ∧ a.c2 = b.c2 ∧ a.size = b.size ∧
+        Near u (2 * (4 * (a.size - 2))) (val a.d) (val b.d) := by
+  intro i a b ha hb
+  obtain ⟨b', hb', e1, e2⟩ := (hlab (i + 1)).get (Nat.lt_succ_self i) ha
+  rw [hb] at hb'; cases hb'
+  have hsz := C06_average_rounded_sizes_unique wf₁ wf₂ hlab (i + 1) i (Nat.lt_succ_self i)
+  rw [ha, hb] at hsz
+  simp only [Option.map_some, Option.some.injEq] at hsz
+  have oa := wf₁.ordered i a ha
+  have hil : i < s₁.length := (List.getElem?_eq_some_iff.mp ha).1
+  have hlen : s₂.length = s₁.length := by rw [wf₂.len, wf₁.len]
+  have hord : ∀ (k : Nat) (s : Step α), k < i → s₁[k]? = some s → s.c1 < s.c2 ∧ s.c2 < n + k :=
+    fun k s _ hs => wf₁.ordered k s hs
+  have hlv : ∀ l, l < n + i → Spec.leaves n s₁ s₁.length l = Spec.leaves n s₂ s₂.length l :=
+    fun l hl => leaves_lab (hlab i) hord s₁.length s₂.length l hl (by omega) (by omega)
+  have n1 := h₁ i a ha
+  have n2 := h₂ i b hb
+  rw [e1, e2, ← hlv a.c1 (by omega), ← hlv a.c2 (by omega), ← hsz] at n2
+  exact ⟨e1.symm, e2.symm, hsz, C02_average_rounded_agree hu n1 n2⟩
+
+/-- **C06 under rounding, entry-point independent form**: two well-formed outputs that are both within
+rounding of the exact means, one of them greedy up to rounding, the other with the rounding-safe
+margin, agree in labels, sizes and — up to `2·4·(size−2)` rounding factors — heights. -/
+theorem C06_average_rounded_agree {D : Nat → Nat → K} {u : K} {n : Nat} {val : α → K}
+    {s₁ s₂ : List (Step α)} (hu : u < 1) (wf₁ : WellFormed n s₁) (wf₂ : WellFormed n s₂)
+    (m₁ : AvgMarginAlong D u n s₁) (g₂ : AvgGreedyUpTo D u n s₂)
+    (h₁ : AvgHeightsNear D u n val s₁) (h₂ : AvgHeightsNear D u n val s₂) :
+    s₁.length = s₂.length ∧
+    ∀ (i : Nat) (a b : Step α), s₁[i]? = some a → s₂[i]? = some b →
+      a.c1 = b.c1 ∧ a.c2 = b.c2 ∧ a.size = b.size ∧
+        Near u (2 * (4 * (a.size - 2))) (val a.d) (val b.d) :=
+  ⟨by rw [wf₁.len, wf₂.len],
+    C06_average_rounded_heights hu wf₁ wf₂ (C06_average_rounded_labels_unique wf₁ wf₂ m₁ g₂) h₁ h₂⟩
+
+/-! ## Entry points -/
+
+section EntryPoints
+variable {val : α → K} {fin : α → Prop} {u lo hi : K} {N : Nat}
+
+/-- The conclusion shared by the entry-point theorems below: both calls return, and IF the margin holds
+along the first output THEN the two outputs agree. -/
+def AgreeIfMargin (D : Nat → Nat → K) (u : K) (n : Nat) (val : α → K) (d₁ d₂ : Dendrogram α) : Prop :=
+  AvgMarginAlong D u n d₁.steps.toList →
+    d₁.steps.toList.length = d₂.steps.toList.length ∧
+    ∀ (i : Nat) (a b : Step α), d₁.steps.toList[i]? = some a → d₂.steps.toList[i]? = some b →
+      a.c1 = b.c1 ∧ a.c2 = b.c2 ∧ a.size = b.size ∧
+        Near u (2 * (4 * (a.size - 2))) (val a.d) (val b.d)
+
+/-- **C06 for IEEE-style arithmetic, average linkage, `primitive_with` vs `nnchain_with`.** -/
+theorem C06_primitive_nnchain_average_rounded (L : OrderLaws α)
+    (RM : Round.Model val fin u lo hi N)
+    (chk : Bool) (st : State α) (d : Dendrogram α) (data : Array α) (n : Nat)
+    (h2 : 2 ≤ n) (hs : n < 2147483648) (hl : 2 * data.size = n * (n - 1))
+    {dlo dhi : K} (hdlo : 0 < dlo) (hdle : dlo ≤ dhi)
+    (hdata : ∀ (k : Nat) (h : k < data.size), fin data[k] ∧ In0 dlo dhi (val data[k]))
+    (Rg : RangeOk u lo hi N n dlo dhi) :
+    ∃ st₁ d₁ M₁ st₂ d₂ M₂,
+      primitiveWith chk .average st d data n = .ok (st₁, d₁, M₁) ∧
+      nnchainWith chk .average st d data n = .ok (st₂, d₂, M₂) ∧
+      AgreeIfMargin (valD val n data) u n val d₁ d₂ := by
+  obtain ⟨st₁, d₁, M₁, r₁, wf₁, _⟩ :=
+    C03_primitive_average_rounded L RM chk st d data n h2 hs hl hdlo hdle hdata Rg
+  obtain ⟨st₁', d₁', M₁', r₁', c₁⟩ :=
+    C02_primitive_average_rounded L RM chk st d data n h2 hs hl hdlo hdle hdata Rg
+  obtain ⟨st₂, d₂, M₂, r₂, wf₂, g₂⟩ :=
+    C03_nnchain_average_rounded L RM chk st d data n h2 hs hl hdlo hdle hdata Rg
+  obtain ⟨st₂', d₂', M₂', r₂', c₂⟩ :=
+    C02_nnchain_average_rounded L RM chk st d data n h2 hs hl hdlo hdle hdata Rg
+  rw [r₁] at r₁'; cases r₁'
+  rw [r₂] at r₂'; cases r₂'
+  refine ⟨st₁, d₁, M₁, st₂, d₂, M₂, r₁, r₂, fun m₁ => ?_⟩
+  exact C06_average_rounded_agree RM.u_lt_one wf₁ wf₂ m₁ g₂
+    (fun i s hi => (c₁ i s hi).2.2.2.2.2) (fun i s hi => (c₂ i s hi).2.2.2.2.2)
+
+/-- **… `primitive_with` vs `linkage_with`** (the main entry point). -/
+theorem C06_primitive_linkage_average_rounded (L : OrderLaws α)
+    (RM : Round.Model val fin u lo hi N)
+    (chk : Bool) (st : State α) (d : Dendrogram α) (data : Array α) (n : Nat)
+    (h2 : 2 ≤ n) (hs : n < 2147483648) (hl : 2 * data.size = n * (n - 1))
+    {dlo dhi : K} (hdlo : 0 < dlo) (hdle : dlo ≤ dhi)
+    (hdata : ∀ (k : Nat) (h : k < data.size), fin data[k] ∧ In0 dlo dhi (val data[k]))
+    (Rg : RangeOk u lo hi N n dlo dhi) :
+    ∃ st₁ d₁ M₁ st₂ d₂ M₂,
+      primitiveWith chk .average st d data n = .ok (st₁, d₁, M₁) ∧
+      linkageWith chk .average st d data n = .ok (st₂, d₂, M₂) ∧
+      AgreeIfMargin (valD val n data) u n val d₁ d₂ := by
+  obtain ⟨st₁, d₁, M₁, r₁, wf₁, _⟩ :=
+    C03_primitive_average_rounded L RM chk st d data n h2 hs hl hdlo hdle hdata Rg
+  obtain ⟨st₁', d₁', M₁', r₁', c₁⟩ :=
+    C02_primitive_average_rounded L RM chk st d data n h2 hs hl hdlo hdle hdata Rg
+  obtain ⟨st₂, d₂, M₂, r₂, wf₂, g₂⟩ :=
+    C03_linkage_average_rounded L RM chk st d data n h2 hs hl hdlo hdle hdata Rg
+  obtain ⟨st₂', d₂', M₂', r₂', c₂⟩ :=
+    C02_linkage_average_rounded L RM chk st d data n h2 hs hl hdlo hdle hdata Rg
+  rw [r₁] at r₁'; cases r₁'
+  rw [r₂] at r₂'; cases r₂'
+  refine ⟨st₁, d₁, M₁, st₂, d₂, M₂, r₁, r₂, fun m₁ => ?_⟩
+  exact C06_average_rounded_agree RM.u_lt_one wf₁ wf₂ m₁ g₂
+    (fun i s hi => (c₁ i s hi).2.2.2.2.2) (fun i s hi => (c₂ i s hi).2.2.2.2.2)
+
+/-- **… `primitive_with` vs `generic_with`** (in addition what `generic_with` needs to run at all). -/
+theorem C06_primitive_generic_average_rounded (L : OrderLaws α) (hbeq : BeqLe α)
+    (RM : Round.Model val fin u lo hi N)
+    (hmax : Num.isNaN (Num.maxValue : α) = false) {G : α → Prop} (gs : GoodSet G)
+    (chk : Bool) (st : State α) (d : Dendrogram α) (data : Array α) (n : Nat)
+    (h2 : 2 ≤ n) (hs : n < 2147483648) (hl : 2 * data.size = n * (n - 1))
+    {dlo dhi : K} (hdlo : 0 < dlo) (hdle : dlo ≤ dhi)
+    (hdata : ∀ (k : Nat) (h : k < data.size), fin data[k] ∧ In0 dlo dhi (val data[k]))
+    (Rg : RangeOk u lo hi N n dlo dhi)
+    (hG : ∀ v, fin v → In0 (vlo u n dlo) (vhi u n dhi) (val v) → G v) :
+    ∃ st₁ d₁ M₁ st₂ d₂ M₂,
+      primitiveWith chk .average st d data n = .ok (st₁, d₁, M₁) ∧
+      genericWith chk .average st d data n = .ok (st₂, d₂, M₂) ∧
+      AgreeIfMargin (valD val n data) u n val d₁ d₂ := by
+  obtain ⟨st₁, d₁, M₁, r₁, wf₁, _⟩ :=
+    C03_primitive_average_rounded L RM chk st d data n h2 hs hl hdlo hdle hdata Rg
+  obtain ⟨st₁', d₁', M₁', r₁', c₁⟩ :=
+    C02_primitive_average_rounded L RM chk st d data n h2 hs hl hdlo hdle hdata Rg
+  obtain ⟨st₂, d₂, M₂, r₂, wf₂, g₂⟩ :=
+    C03_generic_average_rounded L hbeq RM hmax gs chk st d data n h2 hs hl hdlo hdle hdata Rg hG
+  obtain ⟨st₂', d₂', M₂', r₂', c₂⟩ :=
+    C02_generic_average_rounded L hbeq RM hmax gs chk st d data n h2 hs hl hdlo hdle hdata Rg hG
+  rw [r₁] at r₁'; cases r₁'
+  rw [r₂] at r₂'; cases r₂'
+  refine ⟨st₁, d₁, M₁, st₂, d₂, M₂, r₁, r₂, fun m₁ => ?_⟩
+  exact C06_average_rounded_agree RM.u_lt_one wf₁ wf₂ m₁ g₂
+    (fun i s hi => (c₁ i s hi).2.2.2.2.2) (fun i s hi => (c₂ i s hi).2.2.2.2.2)
+
+end EntryPoints
+
+/-! ## Non-vacuity: an input with the margin, and the theorem predicting a rounded run -/
+
+namespace C06Ex
+attribute [local instance] downNum
+
+def exSteps : List (Step ℚ) := [⟨0, 1, 1, 2⟩, ⟨2, 3, 13 / 2, 3⟩]
+
+theorem exD (i j : Nat) : valD (fun x : ℚ => x) 3 #[1, 9, 4] i j =
+    (Spec.entry 3 (#[1, 9, 4] : Array ℚ) Num.infinity i j) := by
+  simp [valD, Spec.init, Method.onSquares]
+
+theorem e01 : Spec.entry 3 (#[1, 9, 4] : Array ℚ) Num.infinity 0 1 = 1 := rfl
+theorem e02 : Spec.entry 3 (#[1, 9, 4] : Array ℚ) Num.infinity 0 2 = 9 := rfl
+theorem e12 : Spec.entry 3 (#[1, 9, 4] : Array ℚ) Num.infinity 1 2 = 4 := rfl
+
+theorem exSteps_margin :
+    AvgMarginAlong (valD (fun x : ℚ => x) 3 #[1, 9, 4]) (1 / 1000 : ℚ) 3 exSteps := by
+  intro i s hi p q hp hq hpq hne
+  have hi2 : i < 2 := (List.getElem?_eq_some_iff.mp hi).1
+  have hcases : i = 0 ∨ i = 1 := by omega
+  rcases hcases with rfl | rfl
+  · have hs : s = ⟨0, 1, 1, 2⟩ := by simpa [exSteps] using hi.symm
+    subst hs
+    have hq3 : q < 3 := hq.1
+    have : (p = 0 ∧ q = 2) ∨ (p = 1 ∧ q = 2) := by
+      simp only at hne; omega
+    rcases this with ⟨rfl, rfl⟩ | ⟨rfl, rfl⟩
+    · simp only [exSteps, List.length_cons, List.length_nil]
+      norm_num [Spec.leaves, avg, S, exD, e01, e02]
+    · simp only [exSteps, List.length_cons, List.length_nil]
+      norm_num [Spec.leaves, avg, S, exD, e01, e12]
+  · have hs : s = ⟨2, 3, 13 / 2, 3⟩ := by simpa [exSteps] using hi.symm
+    subst hs
+    exfalso
+    have hq4 : q < 4 := hq.1
+    have u0 : UsedBefore exSteps 1 0 := ⟨0, ⟨0, 1, 1, 2⟩, by omega, rfl, Or.inl rfl⟩
+    have u1 : UsedBefore exSteps 1 1 := ⟨0, ⟨0, 1, 1, 2⟩, by omega, rfl, Or.inr rfl⟩
+    have hp0 : p ≠ 0 := fun e => hp.2 (e ▸ u0)
+    have hp1 : p ≠ 1 := fun e => hp.2 (e ▸ u1)
+    have hq1 : q ≠ 1 := fun e => hq.2 (e ▸ u1)
+    apply hne
+    simp only
+    omega
+
+theorem exSteps_wf : WellFormed 3 exSteps := by
+  refine ⟨rfl, ?_, ?_, ?_⟩
+  · intro i s hi
+    have hi2 : i < 2 := (List.getElem?_eq_some_iff.mp hi).1
+    have hcases : i = 0 ∨ i = 1 := by omega
+    rcases hcases with rfl | rfl
+    · have hs : s = ⟨0, 1, 1, 2⟩ := by simpa [exSteps] using hi.symm
+      subst hs; simp
+    · have hs : s = ⟨2, 3, 13 / 2, 3⟩ := by simpa [exSteps] using hi.symm
+      subst hs; simp
+  · intro i s hi
+    have hi2 : i < 2 := (List.getElem?_eq_some_iff.mp hi).1
+    have hcases : i = 0 ∨ i = 1 := by omega
+    rcases hcases with rfl | rfl
+    · constructor <;> rintro ⟨j, _, hj, _, _⟩ <;> omega
+    · have hs : s = ⟨2, 3, 13 / 2, 3⟩ := by simpa [exSteps] using hi.symm
+      subst hs
+      constructor <;> rintro ⟨j, t, hj, ht, hl⟩ <;>
+        (have : j = 0 := by omega) <;> subst this <;>
+        (have ht' : t = ⟨0, 1, 1, 2⟩ := by simpa [exSteps] using ht.symm) <;> subst ht' <;>
+        simp at hl
+  · intro i s hi
+    have hi2 : i < 2 := (List.getElem?_eq_some_iff.mp hi).1
+    have hcases : i = 0 ∨ i = 1 := by omega
+    rcases hcases with rfl | rfl
+    · have hs : s = ⟨0, 1, 1, 2⟩ := by simpa [exSteps] using hi.symm
+      subst hs; rfl
+    · have hs : s = ⟨2, 3, 13 / 2, 3⟩ := by simpa [exSteps] using hi.symm
+      subst hs; rfl
+
+/-- The round-down toy type (`u = 1/1000`): the theorem predicts the labels and sizes of the output of
+`nnchain_with` (computed with rounding) from the exact means of the input. -/
+example : ∃ st' d' M',
+    nnchainWith true .average State.new (Dendrogram.new 0) (#[1, 9, 4] : Array ℚ) 3
+      = .ok (st', d', M') ∧
+    ∀ i : Nat, (exSteps[i]?).map (fun s : Step ℚ => (s.c1, s.c2, s.size)) =
+      (d'.steps.toList[i]?).map (fun s : Step ℚ => (s.c1, s.c2, s.size)) := by
+  obtain ⟨st', d', M', hrun, wf, g⟩ := C03_nnchain_average_rounded downNum_orderLaws
+    (downNum_model (lo := 1 / 100) (hi := 100) (N := 10) (by norm_num) (by norm_num) (by norm_num))
+    true State.new (Dendrogram.new 0) #[1, 9, 4] 3 (by decide) (by decide) (by decide)
+    (dlo := 1) (dhi := 9) (by norm_num) (by norm_num)
+    example_data_ok ⟨by decide, by norm_num, by norm_num⟩
+  exact ⟨st', d', M', hrun, C06_average_rounded_unique exSteps_wf wf exSteps_margin g⟩
+end C06Ex
 
 end Kodama
